@@ -334,8 +334,8 @@ PROPS["C10"] = dict(
 	harnesses=C10H + pick(C09H, ["c09_member_order_is_utf16_1char"]),
 )
 
-C14O = [H(_OV + "c14_index_independence_" + p_, "in", "quick", 2400, (_OBJ % p_) + " vs. the same entries with an EMPTY index, and vs. the same keys with other symbolic values", "unwind 10", gb=6.0) for p_ in ("empty", "a", "aa", "ab")] + \
-       [H(_OV + "c14_clone_" + p_, "in", "quick", 2400, _OBJ % p_, "unwind 6", gb=6.0) for p_ in ("a", "aa", "ab")] + \
+C14O = [H(_OV + "c14_index_independence_" + p_, "in", "quick", 900, (_OBJ % p_) + " vs. the same entries with an EMPTY index, and vs. the same keys with other symbolic values", "unwind 10", gb=6.0) for p_ in ("empty", "a", "aa", "ab")] + \
+       [H(_OV + "c14_clone_" + p_, "in", "quick", 900, _OBJ % p_, "unwind 6", gb=6.0) for p_ in ("a", "aa", "ab")] + \
        [H(_OV + "c14_prefix_" + p_, "in", "quick", 1800, (_OBJ % p_) + " vs. its strict prefix (one entry fewer)", "unwind 10", gb=5.0) for p_ in ("a",)]
 C14E = [H("order::c14_laws_scalars", "ext", "quick", 1800, "three scalars: null / any boolean / number from 6 spellings / string of 0..=2 arbitrary characters", "unwind 10", gb=4.0),
         H("order::c14_laws_value_slices", "ext", "quick", 2400, "three [Value] slices of length 0..=2 over scalars with strings of <= 1 arbitrary character", "unwind 10", gb=6.0),
@@ -354,7 +354,7 @@ PROPS["C14"] = dict(
 )
 
 C11H = [H(_OV + "c11_array_iter_mapped_k%d" % k, "in", "quick", 900, "%d items; code map of 16 entries with arbitrary volumes except the children's roots, whose volumes are symbolic 1..=3; container offset 0..=2" % k, "k=%d, unwind 18" % k) for k in range(0, 4)] + \
-       [H(_OV + "c11_object_mapped_" + p_, "in", "quick", 2400, "object with key-equality pattern '%s' (key identities symbolic); value volumes symbolic 1..=3; container offset 0..=1; query key symbolic (present / duplicated / absent)" % p_, "unwind 18", gb=6.0) for p_ in ("empty", "a", "aa", "ab", "aaa", "aba", "abb", "abc")]
+       [H(_OV + "c11_object_mapped_" + p_, "in", "quick", 700, "object with key-equality pattern '%s' (key identities symbolic); value volumes symbolic 1..=3; container offset 0..=1; query key symbolic (present / duplicated / absent)" % p_, "unwind 18", gb=6.0) for p_ in ("empty", "a", "aa", "ab", "aaa", "aba", "abb", "abc")]
 
 C11F = [H("frag::c11_get_fragment_leaf_" + k_, "ext", "quick", 600, "a leaf value (%s), index symbolic < 2^30" % d_, "unwind 4") for k_, d_ in (("b", "any boolean"), ("a", "empty array"))] + \
        [H("frag::c11_get_array_fragment_" + k_, "ext", "quick", 900, "items '%s' on the stack (b boolean with symbolic payload, n null, a empty array, o empty object); index symbolic < 2^30" % k_, "unwind 6") for k_ in ("empty", "a", "bab", "nab", "aaba")] + \
@@ -448,6 +448,10 @@ def OBJ(tier, depth, cap):
 
 
 PROPS["C06"]["harnesses"] = PROPS["C06"]["harnesses"] + [OBJ("quick", 4, 1500), OBJ("thorough", 5, 7200)]
+PROPS["C14"]["harnesses"] = PROPS["C14"]["harnesses"] + [OBJ("quick", 4, 1500), OBJ("thorough", 5, 7200)]
+PROPS["C14"]["functions"] = PROPS["C14"]["functions"] + ["impl Clone / PartialEq / Ord / PartialOrd / Hash for Object (from MIR), on every object reachable by <= 4 / 5 operations, against a twin with the same entries and an EMPTY index, its clone and its strict prefix"]
+PROPS["C14"]["assumptions"] = PROPS["C14"]["assumptions"] + ["Object-level check (MIR): Vec<Entry>'s ==, cmp and hash are modelled on the entry lists (std trusted); the object's index is compared structurally"]
+PROPS["C14"]["outside"] = ["nested arrays/objects beyond one slice level (Kani laws)", "objects of more than 4 (quick) / 5 (thorough) entries", "Kani on non-empty heap objects (does not finish; replaced by the MIR-based object check)"]
 for _p in ("C09", "C10"):
 	PROPS[_p]["harnesses"] = PROPS[_p]["harnesses"] + [OBJ("quick", 4, 1500), OBJ("thorough", 5, 7200)]
 	PROPS[_p]["functions"] = PROPS[_p]["functions"] + ["Object::canonicalize_with (from MIR; one-character keys over all of Unicode, symbolic: str order and UTF-16 order may disagree)"]
@@ -468,6 +472,9 @@ def _finishes(n):
 	if s.startswith("i2_clear_rebuild") or s.startswith("i3_sort"):
 		return False
 	if s.startswith("i3_") and not s.endswith("_empty"):
+		return False
+	# Object-level Kani harnesses on NON-EMPTY heap objects: 30 min cap reached by every instance (measured)
+	if (s.startswith("c14_index_independence_") or s.startswith("c14_clone_")) and not s.endswith("_empty"):
 		return False
 	return True
 
